@@ -897,7 +897,7 @@ class FuelMaterial(Material):
         parameters to coolants and structural material, which are often not parameterized with any
         kind of enrichment.
         """
-        if class1_wt_frac:
+        if class1_wt_frac is not None:
             if not 0 <= class1_wt_frac <= 1:
                 raise ValueError(
                     "class1_wt_frac must be between 0 and 1 (inclusive)."
